@@ -31,13 +31,25 @@ PROPERTY = {
         Harness("c03_token_new", "C03.token_new.normalise", "PROVED-C", "Token::new maps i64::MIN to i64::MAX, identity otherwise", functions=["scylla/src/routing/mod.rs:Token::new"]),
         Harness("c03_cdc_token", "C03.cdc.token", "PROVED-C", "CDC token = first 8 bytes BE (normalised) for keys up to 10 bytes under every 3-chunking; < 8 bytes => minimum token", functions=[F + "CDCPartitionerHasher::write", F + "CDCPartitionerHasher::finish"]),
         Harness("c03_partitioner_name", "C03.partitioner_name", "PROVED-C", "suffix match selects Murmur3 / CDC / none", functions=[F + "PartitionerName::from_str"]),
+    ] + [Harness(f"c03_pk_new_{n}", f"C03.partition_key.new.{n}", "BOUNDED", d, bound="4 bind markers, concrete placement and value lengths (<= 2 bytes), symbolic bytes", timeout=600,
+                 functions=["scylla/src/statement/prepared.rs:PartitionKey::new"])
+         for n, d in (("two_in_order", "PartitionKey::new: 2 key columns, markers in key order: slot s = (value, spec) of the marker carrying key component s"),
+                      ("two_swapped", "PartitionKey::new: 2 key columns, bind markers in the opposite order of the key"),
+                      ("three_rotated", "PartitionKey::new: 3 key columns, rotated marker order, a non-key marker interleaved"),
+                      ("three_reversed", "PartitionKey::new: 3 key columns, reversed marker order"),
+                      ("four_reversed", "PartitionKey::new: 4 key columns, reversed marker order"))
+    ] + [Harness(f"c03_pk_write_{n}", f"C03.partition_key.write.{n}", "BOUNDED", d, bound="concrete component count and lengths (<= 3 bytes), symbolic bytes", timeout=600,
+                 functions=["scylla/src/statement/prepared.rs:PartitionKey::write_encoded_partition_key", "scylla/src/statement/prepared.rs:PartitionKey::iter"])
+         for n, d in (("two", "write_encoded_partition_key on a 2-component key (as PartitionKey::new's contract leaves it): chunks = be16(len) ++ bytes ++ 0 per component in slot order"),
+                      ("three", "... 3 components, one of them empty"), ("three_hole", "... 3 components and an absent (None) slot in between, which is skipped"),
+                      ("four", "... 4 components"))
     ] + [Harness(f"c03_pk_{n}", f"C03.partition_key.layout.{n}", "BOUNDED", d, bound="4 bind markers, concrete placement and value lengths (<= 2 bytes), symbolic bytes",
-                 tier=("quick" if n.startswith("single") else "thorough"), timeout=(300 if n.startswith("single") else 3000),
+                 timeout=300,
                  functions=["scylla/src/statement/prepared.rs:PartitionKey::new", "scylla/src/statement/prepared.rs:PartitionKey::write_encoded_partition_key"])
-         for n, d in (("single_first", "single key column at marker 0: hashed stream = its bytes"), ("single_last", "single key column at marker 3"),
-                      ("two_in_order", "2 key columns, markers in key order: be16(len) bytes 0 per component"), ("two_swapped", "2 key columns, bind markers in the opposite order of the key"),
-                      ("three_rotated", "3 key columns, rotated marker order, a non-key marker interleaved"), ("three_reversed", "3 key columns, reversed marker order"),
-                      ("four_reversed", "4 key columns, reversed marker order"))] + [
+         # the end-to-end composite cases (c03_pk_two_in_order ... c03_pk_four_reversed; still in the overlay) are no longer registered:
+         # 30-50 min each and no answer when five run side by side (thorough run of 2026-09-26). The same obligation is now
+         # cut at the PartitionKey value into C03.partition_key.new.* and C03.partition_key.write.* (69 s for all nine).
+         for n, d in (("single_first", "single key column at marker 0: hashed stream = its bytes (new + write end to end)"), ("single_last", "single key column at marker 3 (new + write end to end)"))] + [
         Harness("c03_canary_token_is_zero", "C03.canary", "PROVED-C", "a false claim must be refuted", carries=False, canary=True),
     ],
     "verus": [
